@@ -330,4 +330,22 @@ PROPS = {
         "probes": [],
         "rule": TIMERS_RULE,
     },
+    "C19": {
+        "modules": ["Sheens.Props.C19"],
+        "theorems": [],
+        "facts": [],
+        "runs": {
+            "quick": [("expect", ["-n", "500"])],
+            "thorough": [("expect", ["-n", "6000"])],
+        },
+        "analyze": analyze_generic,
+        "oracles": ["verdictSound"],
+        "probes": [],
+        "rule": ("sessions of 1-3 steps with 0-3 expected or inverted outputs each (patterns incl. variables, property variables and "
+                 "array variables; ECMAScript guards that accept, reject by predicate or always reject) against scripted line streams "
+                 "that mostly serve the expectations in order, with repeated messages, expected messages that never arrive, non-JSON "
+                 "noise, unrelated messages, shuffles, and a subprocess that waits (timeout) or exits (EOF); run through the real "
+                 "Session.Run with /verif/build/emitter as the subprocess, 16 sessions in parallel, 400 ms step timeout.  "
+                 "Non-trivial: at least one JSON line."),
+    },
 }
